@@ -275,4 +275,4 @@ def validate():
                     for error in errors:
                         sys.stderr.write(f"{error}\n")
 
-    sys.exit(tot_errors)
+    sys.exit(min(tot_errors, 255))
